@@ -299,12 +299,14 @@ func init() {
 		}{
 			{"close-with-command-outstanding", nil},
 			{"close-with-commands-queued", nil},
+			{"close-with-commands-queued-behind-a-held-writer", nil},
 			{"writer-holds-command-while-reader-tears-down", []gateRule{{"W.active.recorded", "S.chansClosed"}}},
 			{"timer-between-check-and-send-at-teardown", []gateRule{{"T.checked", "S.chansClosed"}}},
 			{"command-routed-just-before-leave", []gateRule{{"W.top", "S.stopClosed"}}},
 			{"response-matched-while-reader-tears-down", []gateRule{{"W.resp.match", "S.chansClosed"}}},
 			{"command-sent-after-the-writer-exited-while-the-reader-is-still-in-stop", []gateRule{{"S.connClosed", "M.route.after"}}},
 			{"timeouts-expire-while-the-writer-is-held-in-a-callback", nil},
+			{"timeouts-of-different-lengths-in-adverse-order", nil},
 			{"close-before-join", nil},
 			{"close-mid-frame", nil},
 			{"random-storm", nil},
@@ -367,6 +369,32 @@ func init() {
 					}
 					time.Sleep(time.Duration(r.Intn(400)) * time.Microsecond)
 					t.close(true)
+				case "close-with-commands-queued-behind-a-held-writer":
+					// the writer is parked in a write callback while three commands queue up (none written); the terminal resets;
+					// the released writer finds the stop signal and must answer every queued command at once
+					join()
+					held := make(chan struct{})
+					var once atomic.Bool
+					hold := func(c int) {
+						if c == t.idx && !once.Swap(true) {
+							select {
+							case <-held:
+							case <-time.After(700 * time.Millisecond):
+							}
+						}
+					}
+					l.writeHold.Store(&hold)
+					t.send(t.frame(0x0002, nil))
+					time.Sleep(10 * time.Millisecond)
+					for i := 0; i < 3; i++ {
+						call(t, key, 300*time.Millisecond, &wg)
+					}
+					time.Sleep(10 * time.Millisecond)
+					t.close(true)
+					time.Sleep(40 * time.Millisecond)
+					close(held)
+					wg.Wait()
+					l.writeHold.Store(nil)
 				case "writer-holds-command-while-reader-tears-down", "command-routed-just-before-leave":
 					join()
 					call(t, key, 300*time.Millisecond, &wg)
@@ -417,6 +445,18 @@ func init() {
 					wg.Wait()
 					close(held)
 					l.writeHold.Store(nil)
+					t.close(false)
+				case "timeouts-of-different-lengths-in-adverse-order":
+					// nobody parks the writer here: each caller gets its time-out at its own deadline (slack 400 ms),
+					// whatever the order in which the commands were written
+					join()
+					l.slackMs.Store(400)
+					for _, ms := range []int{1500, 150, 600, 150} {
+						call(t, key, time.Duration(ms)*time.Millisecond, &wg)
+						time.Sleep(5 * time.Millisecond)
+					}
+					wg.Wait()
+					l.slackMs.Store(0)
 					t.close(false)
 				case "close-before-join":
 					call(t, key, 100*time.Millisecond, &wg)
@@ -492,8 +532,56 @@ func init() {
 		rb := l.sendActive(t.idx, 2, key, consts.P8104QueryTerminalParams, nil, 6*time.Second)
 		out := newND(a[0])
 		out.put(map[string]any{"a_kind": ra.Kind, "a_seq": dv.Serial, "wrap_ms": wrapMs, "b_kind": rb.Kind, "b_ms": rb.Ms, "b_seq": rb.PlatSeq, "b_tmo_ms": 6000})
-		out.close()
 		t.close(false)
+		// four commands outstanding at once while the platform serial passes 65535 -> 0: each is written with its own serial
+		// and every caller gets the response that echoes it
+		phone2 := []byte{0x01, 0x37, 0x00, 0x00, 0x00, 0x08}
+		u := l.dial(phone2, 0)
+		key2 := string(asciiDigits(phone2))
+		for i := 0; i < 65534; i++ {
+			u.send(u.frame(0x0002, nil))
+			if i%2000 == 1999 {
+				u.waitRecv(int64(i+1), 20*time.Second)
+			}
+		}
+		u.waitRecv(65534, 30*time.Second)
+		for len(u.recvCh) > 0 {
+			<-u.recvCh
+		}
+		type one struct {
+			Seq  int    `json:"seq"`
+			Kind string `json:"kind"`
+			Echo int    `json:"echo"`
+		}
+		res := make(chan one, 4)
+		for k := 0; k < 4; k++ {
+			go func(k int) {
+				r := l.sendActive(u.idx, 10+k, key2, consts.P8104QueryTerminalParams, nil, 4*time.Second)
+				res <- one{r.PlatSeq, r.Kind, r.Echo}
+			}(k)
+		}
+		var written []int
+		for k := 0; k < 4; k++ {
+			select {
+			case fr := <-u.recvCh:
+				d, _ := decodeView(fr)
+				written = append(written, d.Serial)
+			case <-time.After(3 * time.Second):
+			}
+		}
+		for _, ser := range written { // answered after all four are outstanding
+			u.send(u.frame(0x0104, respBody(0x0104, ser, 0x8104)))
+		}
+		cmds4 := []one{}
+		for k := 0; k < 4; k++ {
+			cmds4 = append(cmds4, <-res)
+		}
+		if written == nil {
+			written = []int{}
+		}
+		out.put(map[string]any{"ev": "wrapcmds", "first": 65534, "written": written, "cmds": cmds4})
+		out.close()
+		u.close(false)
 	}
 }
 
